@@ -20,6 +20,7 @@ EXPLANATION = (
     "function-style invocation quotes every argument (stringify_arg::<true> mapped over all args, "
     "joined with \", \"), the template path uses stringify_arg::<false> and doubles '$'; in "
     "write_string_complex the copy cursor is advanced past every escaped byte on every path."
+    " Later additions: the JSON keys of Resource (incl. `permission`) are the established ones and PermissionMask / Resource / ResourceType decode through serde's derived code (errors are not swallowed into the default mask); the exception bin is keyed by the script text alone (C16.2); use_resources replaces the storage (C13.5); neither legacy conversion filters entries (the empty string is the blanket exception)."
 )
 NOT_DECIDED = ("That the emitted literal round-trips for every string (value level); +js argument-list "
                "unescaping semantics; identical-injection exception matching is checked in C16.")
